@@ -12,9 +12,10 @@ if ! git diff --quiet || ! git diff --cached --quiet; then echo "verif tree dirt
 if [ -n "$(git -C /repo status --porcelain)" ]; then echo "/repo dirty"; exit 1; fi
 git -C "$W" status --short | head -5
 git pull -q --no-edit "$W" "$ID" || {
-  for f in $(git diff --name-only --diff-filter=U); do
+  for f in $(git status --porcelain | grep -E "^(UU|AA|DU|UD|AU|UA) " | cut -c4-); do
     case "$f" in
       evidence/*|MANIFEST.json) git checkout --theirs -- "$f"; git add "$f";;
+      lean/Driver/Main.lean) git rm -q --cached "$f" 2>/dev/null || git rm -q "$f";;
       *) echo "CONFLICT in $f"; exit 1;;
     esac
   done
